@@ -92,6 +92,8 @@ func (verify *VerifyServerController) handlePairVerifyStart(in util.Container) (
 	clientPublicKey := in.GetBytes(TagPublicKey)
 	log.Debug.Println("->     A:", hex.EncodeToString(clientPublicKey))
 	if len(clientPublicKey) != 32 {
+		// No new keys were negotiated, a finish request must not be accepted
+		verify.reset()
 		return nil, errInvalidClientKeyLength
 	}
 
